@@ -62,6 +62,8 @@ def make_state(wfname, backend, fresh, jobs, hashing=False, accounting=True):
 
 def drain_all(world, cap=400):
     """All terminal worlds reachable by legal scheduler steps (start / finish_ok) — BFS with dedup."""
+    if world.backend() == "local":
+        return drain_all_local(world, cap)
     seen, frontier, terminals = set(), [world], []
     while frontier:
         nxt = []
@@ -92,11 +94,39 @@ def drain_all(world, cap=400):
     return terminals, len(seen)
 
 
+def drain_all_local(world, cap=400):
+    """Local pool: every order in which the live processes may exit successfully (BFS with dedup)."""
+    seen, frontier, terminals = set(), [world], []
+    while frontier:
+        nxt = []
+        for w in frontier:
+            acts = [a for a in CW.enabled_env(w, kinds=("finish_ok",)) if a[1] == "exit"]
+            if not acts:
+                stuck = [t["name"] for t in w.pool["summary"]["tasks"] if t["state"] in ("SUBMITTED", "RUNNING")]
+                terminals.append((w, stuck))
+                continue
+            for a in acts:
+                w2, _ = CW.apply_action(w, a)
+                w2.normalize()
+                k = e2.world_key(w2)
+                if k not in seen:
+                    seen.add(k)
+                    nxt.append(w2)
+        frontier = nxt
+        if len(seen) > cap:
+            raise RuntimeError("drain cap")
+    return terminals, len(seen)
+
+
 def gwf_run(world, sel):
     with W.Session(world) as s:
         r = s.gwf(["run"] + (sel or []))
-        subs = [e["name"] for e in s.sim.journal_submits()]
         w2 = s.snapshot()
+        if world.backend() == "local":
+            n = len(world.pool["summary"].get("history", []))
+            subs = [h[2] for h in w2.pool["summary"].get("history", [])[n:]]
+        else:
+            subs = [e["name"] for e in s.sim.journal_submits()]
     return r, subs, w2
 
 
@@ -177,6 +207,38 @@ def converge_and_check(acc, world, sel, case, meta, depth):
                 converge_and_check(acc, wp, sel, c2, meta, depth - 1)
 
 
+LOCAL_HISTORIES = [
+    [],
+    [("gwf", ["run"]), ("penv", "exit", "A", 1)],
+    [("gwf", ["run"]), ("penv", "exit", "A", 0), ("penv", "exit", "B", 1)],
+    [("gwf", ["run", "B"]), ("penv", "exit", "A", 0), ("penv", "exit", "B", 0), ("modify", "src")],
+    [("gwf", ["run"]), ("penv", "exit", "A", 0), ("penv", "exit", "B", 0), ("delete", "a")],
+]
+
+
+def local_batch(acc, batch, depth=1):
+    for wfname, hi, sel in batch:
+        w = CW.init_world(wfname, "local")
+        hist = LOCAL_HISTORIES[hi]
+        ok = True
+        for a in hist:
+            if a[0] == "penv" and a not in CW.enabled_env(w):
+                # let the remaining live processes of this history finish first
+                ok = False
+                break
+            w, _ = CW.apply_action(w, a)
+            w.normalize()
+        if not ok:
+            continue
+        # make the state job-free: every live process exits successfully
+        terms, _ = drain_all_local(w)
+        w = terms[0][0]
+        meta = dict(wf=wfname, backend="local", accounting=True, hashing=False)
+        case = dict(kind="local", meta=meta, state=dict(history=[list(a) for a in hist]), sel=sel, depth=depth, hi=hi)
+        acc.case(key=json.dumps(case, sort_keys=True), outcome=None, nontrivial=True, sample=case)
+        converge_and_check(acc, w, sel, case, meta, depth)
+
+
 def states_batch(acc, batch, meta=None, sels=(None,), depth=1):
     for fresh, jobs in batch:
         w = make_state(meta["wf"], meta["backend"], fresh, jobs, hashing=meta["hashing"], accounting=meta["accounting"])
@@ -218,6 +280,9 @@ def run(ctx):
             its = [it for it in its if it[0].count("older") <= 1 and sum(j is not None for j in it[1]) <= 1]
         ctx.pmap(me, "states_batch", its, chunk=4, meta=meta, sels=cfg["sels"], depth=cfg["depth"])
         done.append(dict(meta, states=len(its), sels=len(cfg["sels"]), perturb_depth=cfg["depth"]))
+    litems = [(wf, hi, sel) for wf in ("fork", "chain") for hi in range(len(LOCAL_HISTORIES)) for sel in (None, ["B"])]
+    ctx.pmap(me, "local_batch", litems, chunk=1, depth=1 if ctx.tier == "quick" else 2)
+    done.append(dict(backend="local", histories=len(LOCAL_HISTORIES), items=len(litems)))
     ctx.traces_validated = ctx.acc.extra["invocations"]
     ctx.acc.extra["states"] = len(ctx.acc.sets["states"])
     ctx.rule = ("case = (job-free project state: per-target freshness x latest-job outcome, selection); for each, all scheduler execution orders are explored "
@@ -231,6 +296,9 @@ def replay(case):
 
     acc = Acc()
     meta = case["meta"]
+    if case.get("kind") == "local":
+        local_batch(acc, [(meta["wf"], case["hi"], case["sel"])], depth=case.get("depth", 1))
+        return acc.violations
     w = make_state(meta["wf"], meta["backend"], tuple(case["state"]["fresh"]), tuple(case["state"]["jobs"]), hashing=meta["hashing"], accounting=meta["accounting"])
     c = dict(case)
     c.pop("history", None)
